@@ -5,6 +5,10 @@ model outcome on this op line (default: string equality)."""
 
 
 def compare(prop, line, impl, model):
+    # C16: `cal_law` lines carry the implementation's reported fields to the driver (feed_ops in check.py); the
+    # plain model pass answers `fed` for them
+    if line.startswith("cal_law ") and model == "fed":
+        return True
     return impl == model
 
 
@@ -250,3 +254,79 @@ def _r_zone_name(t, impl, expected):
     if name[:1] in "+-\u2212":
         return False
     return any((c == "" or not _re.match(r"^[A-Za-z._][A-Za-z0-9._+\-]*$", c)) for c in name.split("/"))
+
+
+# ---------------------------------------------------------------- C16
+LUNISOLAR = ("hebrew", "chinese", "dangi")
+
+
+def _rt_parts(out):
+    m = _re.match(r"^ok code=(\S+) month=(\S+) era=(\S+) iso=(\S+)$", out)
+    return m.groups() if m else None
+
+
+@region("cal-ordinal-month-after-leap-month")
+def _r_ordinal_month(t, impl, expected):
+    """hebrew / chinese / dangi: building a date from (year, ordinal month, day) turns the ordinal month into the
+    month code of the same number, so in a year with a leap month every date at or after the leap month (where the
+    ordinal month differs from the month code's number) is rebuilt as another day or refused; the other routes are
+    right."""
+    if t[0] == "cal_rt" and t[1] in LUNISOLAR:
+        a, e = _rt_parts(impl), _rt_parts(expected)
+        if not a or not e:
+            return False
+        return a[0] == e[0] and a[2] == e[2] and a[3] == e[3] and _re.match(r"^(0|range)@shift(@y<=0)?$", a[1]) is not None
+    if t[0] == "cal_fromc" and t[1] in LUNISOLAR:
+        # month given without a month code: the date that comes back reports another ordinal month
+        # (also when a month code of the same number accompanies it: the two "agree" by number only)
+        return t[5] != "-" and expected == "lib" and _re.match(r"^INCONSISTENT month \d+!=\d+$", impl) is not None
+    return False
+
+
+@region("cal-japanese-nonpositive-year")
+def _r_japanese_year(t, impl, expected):
+    """japanese / japanext: Calendar::year() reports years <= 0 for dates before 1 CE, but the calendrical library
+    refuses a non-positive year given without an era (it reads it in the `ce` era), so such a date cannot be rebuilt
+    from its own year; rebuilding from era and era year works."""
+    if t[0] != "cal_rt" or t[1] not in ("japanese", "japanext"):
+        return False
+    a, e = _rt_parts(impl), _rt_parts(expected)
+    if not a or not e:
+        return False
+    return a[0] == "range@y<=0" and a[1] == "range@y<=0" and a[2] == e[2] and a[3] == e[3]
+
+
+@region("cal-japanext-historic-eras")
+def _r_japanext(t, impl, expected):
+    """japanext: the eras before Meiji that Calendar::era() reports (`keio-1865`, `taika-645`, ...) are not in the
+    crate's era table, so a date in one of them cannot be rebuilt from its era and era year."""
+    if t[0] != "cal_rt" or t[1] != "japanext":
+        return False
+    a, e = _rt_parts(impl), _rt_parts(expected)
+    if not a or not e:
+        return False
+    return a[0] == e[0] and a[1] == e[1] and a[2] == "range@historic" and a[3] == e[3]
+
+
+@region("cal-islamic-day-zero")
+def _r_islamic_day0(t, impl, expected):
+    """islamic (observational) and islamic-umalqura: at some month starts the library reports day 0 of the new month
+    (its month-length data and its new-moon computation disagree by one day): the day is below 1, the consecutive-day
+    law breaks on both sides of it and the date cannot be rebuilt from its own fields."""
+    if t[1] not in ("islamic", "islamic-umalqura"):
+        return False
+    if t[0] == "cal_law":
+        m = _re.match(r"^ok (.*) \| (.*)$", impl)
+        if not m:
+            return False
+        a, b = m.group(1).split(" "), m.group(2).split(" ")
+        return len(a) == 11 and len(b) == 11 and (a[5] == "0" or b[5] == "0") and expected.startswith("bad ")
+    if t[0] == "cal_rt":
+        a, e = _rt_parts(impl), _rt_parts(expected)
+        if not a or not e:
+            return False
+        return a[0] == "range@day0" and a[1] == "range@day0" and a[2] == "range@day0" and a[3] == e[3]
+    if t[0] == "cal_fromc":
+        # the other side of it: the last day of the month before is accepted and reads back as day 0 of the next
+        return expected == "lib" and _re.match(r"^INCONSISTENT month \d+!=\d+,day 0!=\d+$", impl) is not None
+    return False
